@@ -6,6 +6,7 @@ import math
 from vp import gen
 from vp import rates
 from vp import rsagen
+from vp import workloads
 
 ID = 'C05'
 RULE = ('one evaluation = one modulus built by one of the five documented '
@@ -43,20 +44,11 @@ def plan(tier, seed):
   return specs
 
 
-_HEALTHY = []
-
-
 def _run(ctx, chk, n):
   """Runs the check on a batch that contains the modulus at a varying
-  position among healthy keys (checks must judge every key of a batch)."""
-  key = gen.rsa_key(n)
-  if not _HEALTHY:
-    r = ctx.rng('healthy-neighbours')
-    _HEALTHY.extend(rsagen.healthy(r, 1024)[0] for _ in range(3))
-  pos = ctx.counters.get('evaluations', 0) % 4
-  batch = [gen.rsa_key(h) for h in _HEALTHY[:pos]] + [key] + [
-      gen.rsa_key(h) for h in _HEALTHY[pos:pos + 1]]
-  ctx.count('batch_position:%d' % pos)
+  position among healthy keys of mixed sizes (checks must judge every key of
+  a batch by itself)."""
+  batch, key = workloads.rsa_in_batch(ctx, n)
   try:
     chk.Check(batch)
   except Exception as e:  # pylint: disable=broad-except
@@ -369,6 +361,11 @@ def run_smooth(ctx, spec):
 
 def run(ctx, spec):
   s = spec['shard']
+  tail = s.rsplit('-', 1)[-1]
+  if tail.isdigit() and int(tail) % 2 == 1:
+    # odd shards: other instances of the parametrised checks exist (and were
+    # used) before the instance under observation is built
+    workloads.rsa_decoy_instances(ctx)
   for prefix, fn in (('word', run_word), ('swap', run_swap),
                      ('both', run_both), ('lhw', run_lhw),
                      ('smooth', run_smooth)):
@@ -406,7 +403,7 @@ def finalize(agg, tier):
                  'data': {'miss': c['miss:' + fam], 'n': c['tried:' + fam]}})
   for k in ('hit:smooth/one', 'hit:smooth/both', 'hit:smooth/one/maxpow',
             'hit:smooth/both/maxpow', 'hit:smooth/user-bound',
-            'pollard_product_observed', 'instance_history:1',
+            'pollard_product_observed', 'decoy_instances_built', 'instance_history:1',
             'instance_history:2', 'instance_history:3'):
     if not c.get(k):
       inc.append('reach counter %s is zero' % k)
